@@ -302,7 +302,7 @@ class Path:
         if k == "bin":
             return ("bin", rv["op"], self.origin_op(rv["a"], pos, sidx, depth), self.origin_op(rv["b"], pos, sidx, depth), rv["ty"])
         if k == "un":
-            return ("un", rv["op"], self.origin_op(rv["a"], pos, sidx, depth))
+            return fold(("un", rv["op"], self.origin_op(rv["a"], pos, sidx, depth)))
         if k == "discr":
             return ("discr", self.origin_place(rv["place"], pos, sidx, depth))
         if k == "agg":
@@ -523,6 +523,12 @@ def enumerate_paths(body, start=0, stop_at=(), max_visits=2, limit=50000, prune=
                 is_none = mk[1].endswith("is_none")
                 some = (not truth) if is_none else truth
                 decisions.append((("discr", mk[2][0]), ("val", 1 if some else 0)))
+                extra_pushed += 1
+            if mk is not None and mk[0] == "pure" and _re.search(r"Result::<T, E>::(is_ok|is_err)$", mk[1]) and len(mk[2]) == 1 and "0" in t["vals"]:
+                # is_ok(x) == b  <=>  discriminant(x) == (0 if b else 1)   (Result: Ok = 0, Err = 1); `x?` re-tests the same discriminant
+                truth = s != t["tgts"][t["vals"].index("0")]
+                okv = truth if mk[1].endswith("is_ok") else not truth
+                decisions.append((("discr", mk[2][0]), ("val", 0 if okv else 1)))
                 extra_pushed += 1
             if mk is not None and mk[0] == "bin" and mk[1] in ("Eq", "Ne") and isinstance(mk[2], tuple) and mk[2][0] == "pure" and mk[2][1].endswith("::len") \
                     and mk[3] == ("const", ("int", 0, "usize")) and "0" in t["vals"]:
